@@ -48,7 +48,7 @@ Param Hist::genParam(const std::string& name, std::string* descr) {
     std::ostringstream d; d << "type=" << (type == 0 ? "int" : type == 1 ? "float" : "string") << " dims=" << (explicitDims ? dimsToStr(dims) : std::string("implicit")) << " n=" << prod << " desc=" << dl;
     try {
     if (type == 0) { std::vector<int> v; for (size_t i = 0; i < prod; ++i) v.push_back(rng.chance(15) ? (rng.chance(50) ? 32767 : -32768) : rng.range(-3000, 3000));
-        if (explicitDims) p.set(v, dims); else if (prod == 1 && rng.chance(50)) { if (v[0] >= 0 && rng.chance(40)) { static const size_t big[] = {0, 1, 255, 32767, 32768, 65535, 65536, 100000}; size_t sv = rng.chance(50) ? static_cast<size_t>(v[0]) : big[rng.below(8)]; if (sv > 32767) beyondInt16 = true; p.set(sv); } else p.set(v[0]); } else p.set(v); }
+        if (explicitDims) p.set(v, dims); else if (prod == 1 && rng.chance(50)) { if (v[0] >= 0 && rng.chance(40)) { static const size_t big[] = {0, 1, 255, 32767, 32768, 65535, 65536, 100000}; size_t sv = rng.chance(50) ? static_cast<size_t>(v[0]) : big[rng.below(8)]; if (sv > 32767) beyondInt16 = true; p.set(sv); { const std::vector<int>& got = p.valuesAsInt(); if (got.size() != 1 || got[0] != static_cast<int>(sv)) log.viol("C09", "set/size_t_value", "set(size_t " + std::to_string((unsigned long long)sv) + ") stores " + (got.empty() ? std::string("nothing") : std::to_string(got[0]))); } } else p.set(v[0]); } else p.set(v); }
     else if (type == 1) { std::vector<float> v; for (size_t i = 0; i < prod; ++i) v.push_back(bitsf(genFloatBits(rng, specialFloats)));
         if (explicitDims) p.set(v, dims); else if (prod == 1 && rng.chance(50)) { if (rng.chance(40)) p.set(static_cast<double>(v[0])); else p.set(v[0]); } else p.set(v); }
     else { std::vector<std::string> v; bool wide = rng.chance(12); for (size_t i = 0; i < prod; ++i) { int l = rng.chance(15) ? 0 : rng.range(1, 12); if (wide && (i == 0 || rng.chance(10))) l = rng.range(120, 255); /* very uneven widths: long padding runs */ std::string s; for (int k = 0; k < l; ++k) s += (char)("ABCdef ghi_12"[rng.below(13)]); while (!s.empty() && s[s.size() - 1] == ' ') s[s.size() - 1] = 'z'; if (!s.empty() && rng.chance(6)) s[s.size() - 1] = "\t\n\r\v\f"[rng.below(5)]; /* a cell may END in white space other than a blank: only blanks are padding */ v.push_back(s); }
@@ -179,6 +179,12 @@ bool Hist::opParamSet() {
         std::string pg = "PROBES"; if (prev.findGroup(pg) < 0 && prev.groups.size() >= 127) pg = "FORCE_PLATFORM"; if (prev.findGroup(pg) < 0 && prev.groups.size() >= 127) pg = "POINT";   /* no 128th group slot (see DESIGN 9.7) */
         log.pre("parameter"); Outcome ao; VF_TRY(ao, obj->parameter(pg, p)); log.ev("add_param_after_refused_set", "name=" + p.name(), ao); bump("op:add_param_after_refused_set");
         afterMutator("add_param_after_refused_set", ao);
+    }
+    if (!oc.threw && rng.chance(30) && !(type == 2 && nd >= 7)) {     // (a string array with 7 explicit dimensions has 8 in all: beyond the format)
+        p.name("SETOK" + std::to_string(rng.range(0, 3)));
+        std::string pg = "PROBES"; if (prev.findGroup(pg) < 0 && prev.groups.size() >= 127) pg = "FORCE_PLATFORM";
+        log.pre("parameter"); Outcome ao; VF_TRY(ao, obj->parameter(pg, p)); log.ev("add_param_after_accepted_set", "name=" + p.name() + " " + a.str(), ao); bump("op:add_param_after_accepted_set");
+        afterMutator("add_param_after_accepted_set", ao);
     }
     if (!oc.threw) {
         bump("c11_typed_after_reset");
